@@ -262,7 +262,20 @@ static void SetupLive(State* st, const json& live) {
   EvalString deps; deps.AddText("gcc");
   rule->AddBinding("deps", deps);
   st->bindings_.AddRule(std::unique_ptr<Rule>(rule));
-  for (auto& o : live) { Edge* e = st->AddEdge(rule); string err; st->AddOut(e, FromHex(o), 0, &err); }
+  // a second rule without 'deps': statements using it bind deps at the build statement (every other live output), or
+  // inherit it from the file scope (every fourth) - all three are "a build statement using deps"
+  Rule* plain = new Rule("plain");
+  EvalString cmd2; cmd2.AddText("cc2");
+  plain->AddBinding("command", cmd2);
+  st->bindings_.AddRule(std::unique_ptr<Rule>(plain));
+  int idx = 0;
+  for (auto& o : live) {
+    int how = idx++ % 4;
+    Edge* e = st->AddEdge(how == 0 || how == 2 ? rule : plain);
+    if (how == 1) { e->env_ = new BindingEnv(&st->bindings_); e->has_own_env_ = true; e->env_->AddBinding("deps", "gcc"); }
+    if (how == 3) { BindingEnv* file_scope = new BindingEnv(&st->bindings_); file_scope->AddBinding("deps", "gcc"); e->env_ = file_scope; }
+    string err; st->AddOut(e, FromHex(o), 0, &err);
+  }
 }
 static void HandleDepsLog(const json& in) {
   string dir = in["dir"]; string path = dir + "/.ninja_deps";
